@@ -2798,10 +2798,11 @@ fn run_case(seed: u64, case: u64) -> CaseOut {
     // An opener stuck at quiescence: is stream credit available at the peer but not ANNOUNCED? Look at the side
     // that grants the credit (read-only hooks) BEFORE anything else happens:
     //  * MAX_STREAMS queued and the driver asleep: the wake protocol lost it (own key);
-    //  * a stream freed but no MAX_STREAMS queued: quinn-proto queues MAX_STREAMS for credit freed by
-    //    `RecvStream::stop` on a stream whose final size is already known only at the end of the next incoming
-    //    packet — the recorded finding, reported under its key ONLY when this side's history has such a stop (or
-    //    drop of an unread RecvStream) for that direction; any other way of losing the announcement has its own key.
+    //  * a stream freed but no MAX_STREAMS queued: a violation. The key names the call site: quinn-proto used to
+    //    queue MAX_STREAMS for credit freed by `RecvStream::stop` on a stream whose final size is already known only
+    //    at the end of the next incoming packet (repaired); that key is used when this side's history has such a
+    //    stop (or drop of an unread RecvStream) for that direction, any other way of losing the announcement has
+    //    its own key.
     // Then make each side send one packet (a MAX_DATA raise) and look again: openers that get going now were
     // parked for one of these reasons, anything still parked is judged by the general oracle below.
     if plan.qev.is_none() && matches!(end, RunEnd::Deep | RunEnd::Quiescent) {
